@@ -269,6 +269,14 @@ func run(ci any, r *mon.Rec) {
 		if len(rep) > 0 && &rep[0] != &reply[0] {
 			desc += "/damaged-reply"
 		}
+		if i%5 == 3 && c.Kind == "frag" {
+			// a stray byte on the line (another station, noise) read on its own just before the reply arrives: it was
+			// read, so it is part of what the hooks are shown - the read hook and the parse hook alike
+			script.Reply = append([]byte{rep[0] ^ 0x5a}, script.Reply...)
+			script.Steps = append([]xport.ReadStep{{N: 1}}, script.Steps...)
+			desc += "/stray-first-byte"
+			r.Cover("reply", "a stray byte read on its own before the reply")
+		}
 		clk := &xport.Clock{}
 		h := &recHooks{clk: clk}
 		opt := clientx.Options{ReadTimeout: rt, Hooks: h, Clock: clk, Flusher: i%2 == 0}
